@@ -1426,7 +1426,13 @@ def replay(payload):
     if d in ("law", "probe"):
         Settings = _settings_cls()
         try:
-            Settings().loadFromString(payload["file"])
+            if payload.get("api") == "file":
+                fn = os.path.join(common.workdir("c17replay"), "replay.yaml")
+                with open(fn, "w") as f:
+                    f.write(payload["file"])
+                Settings().loadFromInputFile(fn)
+            else:
+                Settings().loadFromString(payload["file"])
             print("the file is read without error")
             return 0
         except Exception as ex:  # noqa: BLE001
@@ -1448,6 +1454,8 @@ import contextlib
 
 @contextlib.contextmanager
 def _patch_cycles_schema(gset, fn):
+    import voluptuous as vol
+
     """the `cycles` schema closes over globalSettings._isMonotonicIncreasing when the settings are defined: swap the
     function object inside the voluptuous All of every newly defined `cycles` setting"""
     orig = gset.defineSettings
@@ -1458,7 +1466,9 @@ def _patch_cycles_schema(gset, fn):
             if getattr(s, "name", "") == "cycles":
                 inner = s._customSchema.schema[0].validators[0]          # the dict of the All(dict, mutuallyExclusive)
                 allv = inner["cumulative days"]
-                allv.validators = (allv.validators[0], fn)          # All looks its validators up at call time
+                allv.validators = (allv.validators[0], fn)
+                s._customSchema = vol.Schema(s._customSchema.schema)  # compile again: the closures held the old function
+                s._setSchema()
         return out
 
     gset.defineSettings = define
